@@ -180,6 +180,42 @@ def direct(prop, ops):
         out += items_oracle(prop, ops, sig)
     if prop == "C08":
         out += delivery_oracle(prop, ops, sig)
+    if prop == "C14":
+        # after a successful component-type removal nothing mentions the type (order-independent, so it may confirm even
+        # though the cascade's internal order is unspecified)
+        specs = oracle.handler_specs(ops)
+        for i, (op, obs) in enumerate(ops):
+            if not op.startswith("rmc ") or "ret some" not in obs or any(l.startswith(("panic", "exit")) for l in obs):
+                continue
+            k = op.split(" ")[1]          # "K3"
+            d = k[1:]
+            for l in lines_of(obs, "st "):
+                if re.search(r"[{,]" + k + r"[:,}]", l):
+                    out.append(Finding(prop, i, sig(i, "entity-still-has-removed-component"), f"after `{op}`: {l[:120]}"))
+            for l in lines_of(obs, "reg "):
+                m = re.match(r"reg c:(\S*) e:(\S*) h:(\S*) stale=", l)
+                if not m:
+                    continue
+                if re.search(r"(^|,)" + k + "=", m.group(1)):
+                    out.append(Finding(prop, i, sig(i, "component-still-registered"), f"{k} still registered after `{op}`"))
+                for ev in (f"Ins{k}", f"Rem{k}"):
+                    if re.search(r"(^|,)" + ev + "=", m.group(2)):
+                        out.append(Finding(prop, i, sig(i, "event-still-registered"), f"{ev} still registered after `{op}`"))
+                live = [x.split("=")[0] for x in m.group(3).split(",") if "=" in x]
+                for name in live:
+                    sp = specs.get(name)
+                    if not sp or sp["index"] > i:
+                        continue
+                    mentions = False
+                    for prm in sp["params"]:
+                        if prm[0] in ("F", "S", "TS") and re.search(r"[rm]" + d, prm[1]):
+                            mentions = True
+                        if prm[0] == "R" and (prm[1] in (f"Ins{k}", f"Rem{k}") or (len(prm) > 3 and re.search(r"[rm]" + d, prm[3]))):
+                            mentions = True
+                        if prm[0] == "Snd" and len(prm) > 1 and any(e in (f"Ins{k}", f"Rem{k}") for e in prm[1].split(",")):
+                            mentions = True
+                    if mentions:
+                        out.append(Finding(prop, i, sig(i, "handler-survived-removal"), f"handler {name} mentions {k} and is still registered after `{op}`"))
     if prop == "C20":
         for i, (op, obs) in enumerate(ops):
             for l in obs:
